@@ -128,7 +128,7 @@ func runC08(c *Ctx) {
 				continue
 			}
 			facts := w.factsAt(r)
-			switch g.Name() {
+			switch nm(g) {
 			case "ErrSamePeerDifferentChannel":
 				c.Anchor("C08.2", g.Name())
 				var ba *ssa.Call
